@@ -197,6 +197,22 @@ def eval_path(case):
             fails.append("Checksums.add(%r): recorded %s:%s, the file at the normalised path has sha256 %s" % (s, typ, val, want))
     elif (typ, val) != ("sha256", "e" * 64):
         fails.append("Checksums.add(%r, value given): recorded %s:%s" % (s, typ, val))
+    if fails:
+        return fails
+    # a computation that fails (no such file; no such algorithm) records nothing and replaces nothing
+    before = {k: tuple(v) for k, v in t.checksums.checksums.items()}
+    for label, args in (("a file that does not exist", (s, "sha256", None, os.path.join(root, "no-such-dir"))),
+                        ("a new path whose file does not exist", (rel + "/absent-file", "sha256", None, root)),
+                        ("an algorithm hashlib does not know", (s, "no-such-algorithm", None, root))):
+        try:
+            t.checksums.add(*args)
+            fails.append("Checksums.add(%r, %r) of %s returned instead of raising" % (args[0], args[1], label))
+        except Exception:
+            pass
+        now = {k: tuple(v) for k, v in t.checksums.checksums.items()}
+        if now != before:
+            fails.append("Checksums.add(%r, %r) of %s failed and changed the table: %s -> %s" % (args[0], args[1], label, before, now))
+            break
     return fails
 
 
@@ -217,6 +233,28 @@ kernel = images/pxeboot/vmlinuz
 [checksums]
 images/pxeboot/vmlinuz = sha256:%s
 """ % ("9" * 64)
+
+
+NOCKS = """[header]
+version = 1.2
+type = productmd.treeinfo
+[release]
+name = Other
+short = O
+version = 1
+[tree]
+arch = x86_64
+build_timestamp = 1386857206
+platforms = x86_64
+variants = Zed
+[variant-Zed]
+id = Zed
+uid = Zed
+name = Zed
+type = variant
+packages = Packages
+repository = .
+"""
 
 
 def eval_section(case):
@@ -299,6 +337,34 @@ def eval_section(case):
     gotr = {k: tuple(v) for k, v in tr.checksums.checksums.items()}
     if gotr != exp:
         return ["%s: read by an object that read another treeinfo before: %s, this file says %s" % (what, gotr, exp)]
+    # ... and the other way round: the object that read THIS file reads one that has no [checksums] section at all
+    tr = TreeInfo()
+    tr.loads(text)
+    tr.loads(NOCKS)
+    gotr = {k: tuple(v) for k, v in tr.checksums.checksums.items()}
+    if gotr:
+        return ["%s: the object then read a treeinfo without a [checksums] section and still carries %s" % (what, gotr)]
+    # removing a child variant is no business of the checksum table (siblings whose repository paths share a textual prefix)
+    from productmd.treeinfo import Variant
+    tv = TreeInfo()
+    tv.loads(text)
+    top = tv.variants.variants[sorted(tv.variants.variants)[0]]
+    for vid, repo in (("HA", "addons/HA"), ("HAExtras", "addons/HAExtras")):
+        c = Variant(tv)
+        c.id, c.uid, c.name, c.type = vid, "%s-%s" % (top.uid, vid), vid, "addon"
+        c.paths.repository = c.paths.packages = repo
+        top.add(c)
+        tv.checksums.add(repo + "/repodata/repomd.xml", "sha256", "%x" % len(vid) * 64)
+    before = {k: tuple(v) for k, v in tv.checksums.checksums.items()}
+    try:
+        del top["HA"]
+    except Exception as exc:
+        return ["%s: del variant['HA'] raised %s: %s" % (what, type(exc).__name__, exc)]
+    now = {k: tuple(v) for k, v in tv.checksums.checksums.items()}
+    before.pop("addons/HA/repodata/repomd.xml")          # the removed variant's own repository index goes with it (documented in the code)
+    if now != before:
+        return ["%s: removing the child variant HA changed the checksum table beyond its own repomd.xml: lost %s"
+                % (what, sorted(set(before) - set(now)))]
     return []
 
 
